@@ -2,6 +2,7 @@ package nbt
 
 import (
 	"bytes"
+	"fmt"
 	"math"
 	"strconv"
 	"strings"
@@ -59,6 +60,11 @@ func writeValue(e *Encoder, d *decodeState, ifWriteTag bool, tagName string) err
 func writeLiteralPayload(e *Encoder, v any) (err error) {
 	switch v := v.(type) {
 	case string:
+		// the length is a 16-bit field: a longer string would be written with a wrapped
+		// length in front of all its bytes (same limit as Encoder.Encode and writeTag)
+		if len(v) > math.MaxInt16 {
+			return fmt.Errorf("string too long: %d bytes, at most %d can be encoded", len(v), math.MaxInt16)
+		}
 		err = writeInt16(e.w, int16(len(v)))
 		if err != nil {
 			return
